@@ -383,3 +383,25 @@ fn handle_breaches_step() {
     std::mem::forget(w);
 }
 wc_harness!(c01_p2_handle_breaches_shared_locator, handle_breaches_step());
+
+/// C06 / C01.P2b: two users share a breached locator and *both* blobs are garbled: each is decrypted on its own (two
+/// calls, each with that appointment's blob), both are reported invalid, nothing is sent.
+fn handle_breaches_both_garbled_step() {
+    let w = concrete_watcher(false, false);
+    {
+        let dbm = w.dbm.lock().unwrap();
+        dbm.verif_push_appointment(the_uuid(1), ExtendedAppointment::new(appointment_with_blob(DISPUTE as u8, 7, 8, 8, 6), user(1), sig_of(b'p'), 2));
+        dbm.verif_push_appointment(the_uuid(0), ExtendedAppointment::new(appointment_with_blob(DISPUTE as u8, 9, 5, 5, 5), user(0), sig_of(b'o'), 3));
+    }
+    let mut breaches: VMap<Locator, Transaction> = VMap::new();
+    breaches.insert(locator_of_tx(DISPUTE), tx(DISPUTE));
+    let invalid = w.handle_breaches(breaches);
+    assert!(unsafe { DECRYPT_CALLS } == 2, "C01.breach: every appointment under the breached locator is decrypted on its own");
+    assert!(unsafe { DECRYPT_ARGS } == (9, 5, 5, DISPUTE as u8), "C06.isolation: the second appointment is judged by its own blob");
+    assert!(unsafe { node::N_SENT } == 0, "C02: nothing is sent for blobs that do not decrypt");
+    assert!(invalid.as_ref().map_or(false, |v| v.len() == 2), "C01.breach: both undecryptable appointments are reported for deletion");
+    kani::cover!(true, "reach");
+    std::mem::forget(invalid);
+    std::mem::forget(w);
+}
+wc_harness!(c06_handle_breaches_both_garbled, handle_breaches_both_garbled_step());
